@@ -695,7 +695,7 @@ func (e *Exec) rangeFact(v Term, t types.Type) Term {
 		}
 	case *types.Slice:
 		return And(Le(IntLit(0), SRef(v)), Le(IntLit(0), SOff(v)), Le(IntLit(0), SLen(v)), Le(SLen(v), SCap(v)),
-			Le(SCap(v), IntLit(1<<48)), Le(SOff(v), IntLit(1<<48)),
+			Le(SCap(v), IntLit(1<<47)), Le(SOff(v), IntLit(1<<48)),
 			Implies(Eq(SRef(v), IntLit(0)), And(Eq(SLen(v), IntLit(0)), Eq(SCap(v), IntLit(0)))))
 	case *types.Pointer:
 		return Le(IntLit(0), v)
